@@ -18,7 +18,8 @@
                                       link: the last job in iteration order wins, the others get no link
      DEVIATION D3 (FixedD3 = FALSE)  a DIRECTORY called `job` (a state point key or value whose text is "job")
                                       is taken for an existing link; the next run tries to unlink/rmdir it
-                                      and fails with OSError, possibly after having removed other entries
+                                      and fails with OSError, possibly after having removed other entries,
+                                      or leaves an emptied directory behind
    REQUIREMENT = Want(ws, view, args): if the selection is representable (every selected job has a path, the
    paths are distinct, no link path leads through another link, no separator in keys/values) then exactly one
    link per selected job at PathOf(job)/job plus the ancestor directories - the from-scratch tree - else
@@ -127,8 +128,9 @@ RECURSIVE RemoveAll(_, _)
 RemoveAll(v, P) == IF P = {} THEN v ELSE LET p == CHOOSE x \in P : TRUE IN RemoveAll(Rm(v, p), P \ {p})
 
 \* _find_all_links: every directory that has a child called `job` (D3: whether that child is a link or not)
-Existing(v) == LET withJob == {l.d : l \in v.links}
-                              \cup (IF FixedD3 THEN {} ELSE {d \in v.dirs \cup {<<>>} : Append(d, JOBSEG) \in v.dirs})     \* DEVIATION D3
+Existing(v, fixed3) ==
+               LET withJob == {l.d : l \in v.links}
+                              \cup (IF fixed3 THEN {} ELSE {d \in v.dirs \cup {<<>>} : Append(d, JOBSEG) \in v.dirs})     \* DEVIATION D3
                IN {Append(IF d = <<>> THEN <<CURSEG>> ELSE d, JOBSEG) : d \in withJob}
 
 \* obsolete entries are processed deepest first; entries of equal depth in an order the code does not fix
@@ -141,11 +143,11 @@ RunObs(v, rem) ==
        ELSE UNION {IF CanRemove(v, p) THEN RunObs(Rm(v, p), rem \ {p}) ELSE {[v |-> v, ok |-> FALSE]} : p \in lvl}
 
 Out(res, v, dev) == [res |-> res, view |-> v, dev |-> dev]
-Update(v, links, dev) ==     \* links : set of [p |-> code-level link path, j |-> job]
+Update(v, links, dev, fixed3) ==     \* links : set of [p |-> code-level link path, j |-> job]
   LET newp   == {l.p : l \in links}
       jobOf(p) == (CHOOSE l \in links : l.p = p).j
-      ex     == Existing(v)
-      inWay  == IF FixedD3 THEN {p \in newp : Norm(p) \in v.dirs} ELSE {}       \* (a fixed implementation clears a directory where a link belongs)
+      ex     == Existing(v, fixed3)
+      inWay  == IF fixed3 THEN {p \in newp : Norm(p) \in v.dirs} ELSE {}       \* (a fixed implementation clears a directory where a link belongs)
       obs    == ((Pfxs(ex) \ Pfxs(newp)) \cup inWay) \ {<<CURSEG>>}
   IN UNION {
        IF ~o.ok THEN {Out("OSError", o.v, dev \cup {"D3"})}
@@ -184,7 +186,12 @@ Outcomes(w, v, a) ==
                       \* _check_directory_structure_validity, in insertion order of the link table
                       first(p) == Min(pos(p))
                       leafnode == \E x, y \in links0 : first(x.p) > first(y.p) /\ StrictPfx(x.p, y.p)
-                  IN IF leafnode THEN Rej ELSE Update(v, links, dev)
+                  IN IF leafnode THEN Rej
+                     ELSE IF FixedD3 \/ Existing(v, FALSE) = Existing(v, TRUE) THEN Update(v, links, dev, FixedD3)
+                     ELSE \* a directory called `job` is in play: whatever differs from the fixed algorithm is D3's doing
+                          LET fixed == Update(v, links, dev, TRUE) IN
+                          {IF \E i \in fixed : i.res = o.res /\ i.view = o.view THEN o ELSE [o EXCEPT !.dev = @ \cup {"D3"}]
+                           : o \in Update(v, links, dev, FALSE)}
 
 ---------------------------------------------------------------------------
 (* actions.  `last` is the observation variable of DESIGN 2.3: every step records what was called and what the model
